@@ -74,6 +74,8 @@ def units(tier):
     }
     for nm, sp in trees.items():
         add(f"tree_{nm}", sp, pieces=["n", "e"])
+        add(f"tree_{nm}_u", sp, pieces=["u2", "u3"])
+        add(f"tree_{nm}_u4", sp, pieces=["n", "u4"])
         for si, spaces in enumerate([[1, 0, 0, 0], [0, 1, 0, 0], [0, 0, 1, 0], [0, 0, 0, 1], [2, 2, 2, 2]]):
             add(f"tree_{nm}_sp{si}", sp, sp=spaces)
     add("item_sp_outer", ["eq"], sp=[2, 0, 0, 0])
